@@ -417,6 +417,20 @@ fn run_one(text: &str) {
                     _ => panic!("unsupported metric pair"),
                 }
             }
+            "expect_buckets_within" => {
+                let cap: u64 = tok[1].parse().unwrap();
+                for r in raw.iter(&wtxn).unwrap() {
+                    let (k, v) = r.unwrap();
+                    let key = KeyCodec::bytes_decode(k).unwrap();
+                    if key.index == index && key.node.mode == NodeMode::Tree {
+                        if let Node::Descendants(Descendants { descendants }) = NodeCodec::<D>::bytes_decode(v).unwrap() {
+                            if descendants.len() > cap {
+                                verdict.push(format!("bucket {} holds {} items, split_after is {cap}", key.node.item, descendants.len()));
+                            }
+                        }
+                    }
+                }
+            }
             "expect_n_trees_at_least" => {
                 let md = db.remap_data_type::<MetadataCodec>().get(&wtxn, &Key::metadata(index)).unwrap().unwrap();
                 let n: usize = tok[1].parse().unwrap();
